@@ -1,4 +1,5 @@
 import VOPyVerif.Proofs.AcqSteps
+import VOPyVerif.Proofs.Thompson
 import Mathlib.Analysis.Real.Sqrt
 /-!
 # C07 — samples go to the acquisition maximiser among active designs and reach the model
@@ -408,5 +409,166 @@ example : evaluateAllStep [2, 0] [3, 2] (fun i => [i, i]) [[[5, 5]], [], [[6, 6]
 
 example : empAddSample [[], [[1, 1]], []] [2, 0, 2] [[5, 5], [6, 6], [7, 7]]
     = some [[[6, 6]], [[1, 1]], [[5, 5], [7, 7]]] := by decide +kernel
+
+/-! ## EXTENSION — the Thompson-entropy acquisition (`ThompsonEntropyDecoupledAcquisition.forward`)
+
+About `Model/Thompson.lean` (helpers: `Proofs/Thompson.lean`), the term the driver evaluates at `Float`
+against the real `forward` (ops `thmask`, `thsamples`, `thprob`, `thval`).  `n` = number of Thompson
+samples, `m` = number of objectives, `j` = `evaluation_index`, `mem t i` = entry `[t][i]` of the
+Boolean Pareto mask.  Entropy statements are at `ℝ` (the same `RealLike` term). -/
+
+section Thompson
+open VOPy.RealLike
+
+/-- **`itertools.combinations(range(n), r)`** enumerates exactly the strictly increasing `r`-tuples
+with entries below `n` — the only index tuples the fill loop of `forward` visits. -/
+theorem thompson_combinations_spec {n r : Nat} {t : List Nat} :
+    t ∈ Thompson.combinations n r ↔ t.length = r ∧ t.Pairwise (· < ·) ∧ ∀ a ∈ t, a < n :=
+  Thompson.mem_combinations
+
+/-- there are `C(n, r)` of them, without repetition -/
+theorem thompson_combinations_count (n r : Nat) :
+    (Thompson.combinations n r).length = n.choose r ∧ (Thompson.combinations n r).Nodup :=
+  ⟨Thompson.length_combinations n r, Thompson.nodup_combsFrom n r 0⟩
+
+/-- **What the fill loop writes.**  At the `k`-th combination the mask holds exactly the `k`-th
+`get_pareto_set` answer; an entry that is `True` sits at a strictly increasing index tuple and
+belongs to some recorded Pareto set (every other entry of the `n^m × K` tensor stays `False`). -/
+theorem thompson_fill_spec {n m : Nat} {pareto : List (List Nat)} :
+    (∀ k (h1 : k < (Thompson.combinations n m).length) (h2 : k < pareto.length) (i : Nat),
+        Thompson.filledMask n m pareto ((Thompson.combinations n m)[k]) i = pareto[k].contains i) ∧
+    (∀ t i, Thompson.filledMask n m pareto t i = true →
+        t ∈ Thompson.combinations n m ∧ ∃ P ∈ pareto, i ∈ P) :=
+  ⟨fun k h1 h2 i => Thompson.filledMask_at k h1 h2 i, fun _ _ h => Thompson.filledMask_true h⟩
+
+/-- **Probabilities are probabilities.**  With at least one Thompson sample the prior probability
+(mean over all sample axes) and every posterior probability (mean over all axes but `j`) lie in
+`[0, 1]` — for every mask, every objective index and every slice. -/
+theorem thompson_prob_unit {n : Nat} (hn : 0 < n) (m j s : Nat) (mem : Thompson.Mask) (i : Nat) :
+    (0 ≤ Thompson.priorProb n m mem i ∧ Thompson.priorProb n m mem i ≤ 1) ∧
+    (0 ≤ Thompson.postProb n m j s mem i ∧ Thompson.postProb n m j s mem i ≤ 1) :=
+  ⟨⟨Thompson.priorProb_nonneg n m mem i, Thompson.priorProb_le_one hn m mem i⟩,
+   ⟨Thompson.postProb_nonneg n m j s mem i, Thompson.postProb_le_one hn m j s mem i⟩⟩
+
+/-- **Consequence of averaging over the full tensor.**  Because only strictly increasing sample
+combinations are filled while the mean runs over all `n^m` index tuples, the prior probability
+of the code never exceeds `C(n, m) / n^m` (e.g. 0.45 for 10 samples and 2 objectives), even for a
+design that is Pareto-optimal in every sample. -/
+theorem thompson_prior_le_choose {n : Nat} (hn : 0 < n) (m : Nat) (pareto : List (List Nat)) (i : Nat) :
+    Thompson.priorProb n m (Thompson.filledMask n m pareto) i ≤ (n.choose m : ℚ) / ((n ^ m : Nat) : ℚ) := by
+  unfold Thompson.priorProb
+  have hpos : (0 : ℚ) < ((n ^ m : Nat) : ℚ) := by exact_mod_cast Nat.pow_pos hn
+  apply div_le_div_of_nonneg_right _ hpos.le
+  exact_mod_cast Thompson.priorCount_filled_le n m pareto i
+
+/-- the prior probability is the average of the `n` posterior probabilities of objective `j` -/
+theorem thompson_prior_eq_avg_post {n m j : Nat} (hn : 0 < n) (hj : j < m) (mem : Thompson.Mask) (i : Nat) :
+    Thompson.priorProb n m mem i = (∑ s ∈ Finset.range n, Thompson.postProb n m j s mem i) / n :=
+  Thompson.priorProb_eq_avg hn hj mem i
+
+/-- **How `xlogy` is modelled.**  `xlogy 0 = 0` by the explicit guard on the exact rational, in every
+carrier (at `Float`, `0 * log 0` would be NaN); over `ℝ` the guard is invisible: `xlogy p = p·log p`
+for every `p` because `Real.log 0 = 0`. -/
+theorem thompson_xlogy_model (α : Type) [RealLike α] (p : ℚ) :
+    (Thompson.xlogy 0 : α) = RealLike.ofNat 0 ∧ (Thompson.xlogy p : ℝ) = (p : ℝ) * Real.log p :=
+  ⟨by simp [Thompson.xlogy], Thompson.xlogy_real p⟩
+
+/-- **`binary_entropy` is the binary entropy in bits**: `−(p·log p + (1−p)·log(1−p)) / log 2`,
+i.e. Mathlib's `Real.binEntropy p / log 2`. -/
+theorem thompson_entropy_eq (p : ℚ) :
+    (Thompson.binaryEntropy p : ℝ) = -((p : ℝ) * Real.log p + (1 - (p : ℝ)) * Real.log (1 - p)) / Real.log 2 ∧
+    (Thompson.binaryEntropy p : ℝ) = Real.binEntropy p / Real.log 2 := by
+  refine ⟨?_, Thompson.binaryEntropy_real p⟩
+  rw [Thompson.binaryEntropy_real, Real.binEntropy, Real.log_inv, Real.log_inv]
+  ring
+
+/-- **Entropy of a certain event is 0, and entropy is at most one bit**: `H(0) = H(1) = 0`,
+`H(p) ≤ 1` for every `p`, `0 ≤ H(p)` for `p ∈ [0, 1]`. -/
+theorem thompson_entropy_bounds :
+    (Thompson.binaryEntropy 0 : ℝ) = 0 ∧ (Thompson.binaryEntropy 1 : ℝ) = 0 ∧
+    (∀ p : ℚ, (Thompson.binaryEntropy p : ℝ) ≤ 1) ∧
+    (∀ p : ℚ, 0 ≤ p → p ≤ 1 → (0 : ℝ) ≤ Thompson.binaryEntropy p) := by
+  refine ⟨?_, ?_, Thompson.binaryEntropy_le_one, fun p h0 h1 => Thompson.binaryEntropy_nonneg h0 h1⟩
+  · rw [Thompson.binaryEntropy_real]; simp
+  · rw [Thompson.binaryEntropy_real]; simp
+
+/-- **The value never exceeds the prior entropy** (the mean posterior entropy is non-negative), hence
+it is at most one bit. -/
+theorem thompson_gain_le_prior {n : Nat} (hn : 0 < n) (m j : Nat) (mem : Thompson.Mask) (i : Nat) :
+    (Thompson.gain n m j mem i : ℝ) ≤ Thompson.binaryEntropy (Thompson.priorProb n m mem i) ∧
+    (Thompson.gain n m j mem i : ℝ) ≤ 1 := by
+  have h := Thompson.meanPostEntropy_nonneg hn m j mem i
+  have h1 := Thompson.binaryEntropy_le_one (Thompson.priorProb n m mem i)
+  have e : (Thompson.gain n m j mem i : ℝ) =
+      Thompson.binaryEntropy (Thompson.priorProb n m mem i) - Thompson.meanPostEntropy n m j mem i := rfl
+  constructor <;> rw [e] <;> linarith
+
+/-- **The value is an information gain: it is never negative** (Jensen's inequality for the concave
+binary entropy: the prior probability is the average of the posterior probabilities). -/
+theorem thompson_gain_nonneg {n m j : Nat} (hn : 0 < n) (hj : j < m) (mem : Thompson.Mask) (i : Nat) :
+    (0 : ℝ) ≤ Thompson.gain n m j mem i := by
+  have h := Thompson.meanPostEntropy_le_prior hn hj mem i
+  have e : (Thompson.gain n m j mem i : ℝ) =
+      Thompson.binaryEntropy (Thompson.priorProb n m mem i) - Thompson.meanPostEntropy n m j mem i := rfl
+  rw [e]; linarith
+
+/-- **Relabelling the designs consistently relabels the values**: the value of a design depends only
+on that design's column of the mask, so for any relabelling `σ` of the designs (in particular a
+permutation) the value of design `i` under the relabelled mask is the value of design `σ i` under
+the original one — in every carrier (`Float` included), with or without costs. -/
+theorem thompson_value_relabel {α : Type} [RealLike α] (n m j : Nat) (mem : Thompson.Mask)
+    (cost : Option α) (σ : Nat → Nat) (i : Nat) :
+    Thompson.value n m j (fun t i => mem t (σ i)) cost i = Thompson.value n m j mem cost (σ i) := rfl
+
+/-- the same for the whole output of `forward` -/
+theorem thompson_forward_relabel {α : Type} [RealLike α] (n m K j : Nat) (mem : Thompson.Mask)
+    (cost : Option α) (σ : Nat → Nat) :
+    Thompson.forward n m K j (fun t i => mem t (σ i)) cost =
+      (if n = 0 ∨ m ≤ j then none
+       else some ((List.range K).map (fun i => Thompson.value n m j mem cost (σ i)))) := rfl
+
+/-- **A positive cost does not change the order within an objective**: dividing by `costs[j] > 0`
+preserves every comparison between two designs' values for objective `j` (and the value is the
+gain over the cost). -/
+theorem thompson_cost_order (n m j : Nat) (mem : Thompson.Mask) {c : ℝ} (hc : 0 < c) (a b : Nat) :
+    Thompson.value n m j mem (some c) a = Thompson.gain n m j mem a / c ∧
+    (Thompson.value n m j mem (some c) a ≤ Thompson.value n m j mem (some c) b ↔
+      Thompson.value n m j mem (none : Option ℝ) a ≤ Thompson.value n m j mem none b) := by
+  refine ⟨rfl, ?_⟩
+  show Thompson.gain n m j mem a / c ≤ Thompson.gain n m j mem b / c ↔
+    Thompson.gain n m j mem a ≤ Thompson.gain n m j mem b
+  exact div_le_div_iff_of_pos_right hc
+
+/-- `forward` yields values exactly when there is at least one Thompson sample and the objective
+index is in range (the code returns NaN resp. raises `IndexError` otherwise), one per design. -/
+theorem thompson_forward_defined {α : Type} [RealLike α] (n m K j : Nat) (mem : Thompson.Mask)
+    (cost : Option α) :
+    (∃ v, Thompson.forward n m K j mem cost = some v ∧ v.length = K) ↔ 0 < n ∧ j < m := by
+  unfold Thompson.forward
+  by_cases h : n = 0 ∨ m ≤ j
+  · simp only [h, if_true]
+    constructor
+    · rintro ⟨v, hv, _⟩; cases hv
+    · rintro ⟨h1, h2⟩; omega
+  · simp only [h, if_false]
+    constructor
+    · intro _; omega
+    · intro _; exact ⟨_, rfl, by simp⟩
+
+/-- non-vacuity: 2 samples, 2 objectives, one combination `(0, 1)` whose Pareto set is `{0}`:
+design 0 has prior probability 1/4 (one `True` among the 4 index tuples), posterior probability 1/2
+given sample 0 of objective 0 and 0 given sample 1; design 1 has probability 0 throughout -/
+example : Thompson.priorProb 2 2 (Thompson.filledMask 2 2 [[0]]) 0 = 1 / 4
+    ∧ Thompson.postProb 2 2 0 0 (Thompson.filledMask 2 2 [[0]]) 0 = 1 / 2
+    ∧ Thompson.postProb 2 2 0 1 (Thompson.filledMask 2 2 [[0]]) 0 = 0
+    ∧ Thompson.priorProb 2 2 (Thompson.filledMask 2 2 [[0]]) 1 = 0 := by decide +kernel
+
+example : Thompson.combinations 4 2 = [[0, 1], [0, 2], [0, 3], [1, 2], [1, 3], [2, 3]] := by decide
+
+/-- the cap of `thompson_prior_le_choose` is attained: a design in every Pareto set has prior
+probability `C(3,2)/3² = 1/3` -/
+example : Thompson.priorProb 3 2 (Thompson.filledMask 3 2 [[0], [0], [0]]) 0 = 1 / 3 := by decide +kernel
+
+end Thompson
 
 end VOPy.C07
